@@ -34,6 +34,9 @@ GROUPS = {
     "grapheme": (r"^(text::unicode::(Grapheme|Graphemes|GraphemesIter)(::\w+|\[std::(iter::Iterator|iter::DoubleEndedIterator|borrow::Borrow|convert::AsRef)\]::\w+)"
                  r"|&'src (str|text::unicode::Graphemes)\[std::(convert::From|iter::IntoIterator)\]::\w+)$",
                  ["C10", "C14", "C20"], "grapheme wrappers: same bytes, extended segmentation"),
+    "misc": (r"^(Boxed\[Parser\]::boxed|pratt::Operator::boxed|input::Errors\[std::default::Default\]::default|DefaultExpected::into_owned"
+             r"|error::RichPattern\[std::convert::From\]::from|EmptyPhantom::new)$", ["C06", "C13", "C09"],
+             "re-boxing returns the same parser; a fresh Errors has no pending error; expected-pattern conversions keep their payload"),
     "recursive": (r"^(recursive::(OnceCell::(get|new)|Recursive::parser)|cache::Cache::\w+|cache::Cache\[std::default::Default\]::default)$",
                   ["C12", "C13"], "recursive handle upgrade, cache accessors"),
 }
@@ -206,4 +209,57 @@ def rule_override_inv(facts):
     r.nontrivial = n
     r.info = {"impls": n, "overrides": sorted("%s %s::%s" % k for k in seen)}
     r.require_floor(n, facts, "OVERRIDE-INV.impls", "parser trait impls")
+    return r
+
+
+# ====================================================================== CTOR-INV (who may construct the parse-state types)
+
+CTORS = {
+    # ADT: functions allowed to build it with a struct literal (their bodies are pinned by HELPER-PROV / HOOKS-SAVE-REWIND / SUB-INPUT / ENTRY)
+    "input::MapExtra": {"input::MapExtra::new"},
+    "input::Checkpoint": {"input::InputRef::save"},
+    "input::Cursor": {"input::InputRef::cursor"},
+    "input::Errors": {"input::Errors[std::default::Default]::default"},
+    "input::InputRef": {"input::InputOwn::as_ref_start", "input::InputRef::with_ctx", "input::InputRef::with_input", "input::InputRef::with_state"},
+    "input::InputOwn": {"input::InputOwn::new", "input::InputOwn::new_state"},
+    "input::Emitter": {"input::Emitter::new"},
+    "private::Located": {"private::Located::at"},
+    "ParseResult": {"ParseResult::new"},
+}
+
+
+def rule_ctor_inv(facts):
+    """What user code is shown (MapExtra), what a rewind restores (Checkpoint / Cursor), where errors are kept (Errors / Located),
+    the per-parse owner (InputOwn / InputRef) and the result (ParseResult) are built by one reviewed constructor each; a struct literal
+    anywhere else (a helper that assembles its own MapExtra from a peeked cursor and the not-yet-updated state, a hand-made Checkpoint
+    without on_save) bypasses the rules that pin those constructors."""
+    r = RuleResult("CTOR-INV")
+    n = 0
+    seen = {k: set() for k in CTORS}
+    for b in facts.bodies:
+        base = re.sub(r"<.*", "", re.sub(r"(::\{closure#\d+\})+$", "", b["uname"]))
+        if b["name"] in ("clone", "clone_from") and (b.get("impl_trait") or "").endswith("Clone"):
+            continue
+        for _, bl, s in assigns(b):
+            rv = s["rv"]
+            if rv["k"] != "agg" or rv.get("ak") != "adt" or rv["adt"] not in CTORS:
+                continue
+            n += 1
+            seen[rv["adt"]].add(base)
+            ok = base in CTORS[rv["adt"]]
+            r.ob(ok)
+            if not ok:
+                r.violations.append(V("CTOR-INV", base, "constructs %s" % rv["adt"],
+                                      "%s builds a %s with a struct literal; only %s may (their bodies are the reviewed ones): a value "
+                                      "assembled elsewhere is not covered by the rules that decide what user code sees / what a rewind "
+                                      "restores / where errors are kept" % (base, rv["adt"], sorted(CTORS[rv["adt"]])), b["file"], s.get("line") or bl["line"]))
+    for adt, fns in CTORS.items():
+        for fn in fns:
+            if fn not in seen[adt] and not (adt == "input::InputRef" and fn.endswith("with_input") and False):
+                r.errors.append("anchor: %s no longer constructs %s" % (fn, adt))
+    r.explanation = ("%d struct-literal constructions of the parse-state types (%s): each in its reviewed constructor only"
+                     % (n, ", ".join(k.split("::")[-1] for k in CTORS)))
+    r.nontrivial = n
+    r.info = {"constructions": {k: sorted(v) for k, v in seen.items()}}
+    r.require_floor(n, facts, "CTOR-INV.sites", "constructions of parse-state types")
     return r
